@@ -117,13 +117,20 @@ func checkHeadProgram(c *Ctx, p *mon.Prog, viaFacade int) {
 	s := NewSys(noneIC, false, false, opts...)
 	pattern := "/p/{id}/x"
 	var h *mon.Hnd
+	// the GET handler is what the route was registered with, middlewares included (per route here; the facade's and, in a
+	// third of the routers, one given to Use before): HEAD runs the same thing
+	var mws []*mon.MW
+	if len(p.Steps)%2 == 1 {
+		mws = []*mon.MW{s.Env.MW("route-mw-1"), s.Env.MW("route-mw-2")}
+		c.Class("head_of_a_route_with_middlewares")
+	}
 	switch viaFacade {
 	case 1:
-		_, _, h = s.Handle(pattern, []string{"GET"}, Via{Kind: 1, Cut: 3})
+		_, _, h = s.Handle(pattern, []string{"GET"}, Via{Kind: 1, Cut: 3}, mws...)
 	case 2:
-		_, _, h = s.Handle(pattern, []string{"GET", "POST"}, Via{Kind: 2})
+		_, _, h = s.Handle(pattern, []string{"GET", "POST"}, Via{Kind: 2}, mws...)
 	default:
-		_, _, h = s.Handle(pattern, nil, Via{})
+		_, _, h = s.Handle(pattern, nil, Via{}, mws...)
 	}
 	h.Prog = p
 	og := mon.Do(s.R, mon.Req{Method: "GET", Path: "/p/7/x"})
@@ -141,6 +148,10 @@ func checkHeadProgram(c *Ctx, p *mon.Prog, viaFacade int) {
 	}
 	if h.Runs.Load() != runsAfterGet+1 || runsAfterGet != 1 {
 		c.Violate("HEAD did not run the GET handler exactly once", detail())
+		return
+	}
+	if og.H != nil && oh.H != nil && strings.Join(og.H.Chain, ",") != strings.Join(oh.H.Chain, ",") {
+		c.Violate(fmt.Sprintf("HEAD is served through the middlewares %v, GET through %v", oh.H.Chain, og.H.Chain), detail())
 		return
 	}
 	if len(oh.Body) != 0 {
